@@ -137,6 +137,20 @@ class Registry:
                 continue
             yield key, kind
 
+    def parts_cache(self, keys):
+        """[(array name, sort, class short)] for the mutable keys in `keys` (None = all); memoised"""
+        ck = None if keys is None else frozenset(keys)
+        cache = self.__dict__.setdefault("_parts_cache", {})
+        if ck not in cache:
+            out = []
+            for key, kind in self.mutable_keys():
+                if keys is not None and key not in keys:
+                    continue
+                for sub, sort in self.array_parts(key, kind):
+                    out.append((sub, sort, key.split(".", 1)[0]))
+            cache[ck] = out
+        return cache[ck]
+
     def array_parts(self, key, kind):
         if kind.startswith("opt:"):
             return [(key + "#none", BoolS), (key + "#val", sort_of_kind(kind[4:]))]
